@@ -169,6 +169,8 @@ def assemble(fam, hist):
             nxt = 0
         elif op == "nextwrong":
             nxt = length + (it.get("offv") or 1)
+        elif op == "nextlen":
+            nxt = length  # for an end_of_sequence: 13, "pointing" at whatever follows it in a concatenation
         elif op == "nextsmall":
             nxt = 1 + (it.get("offv") or 0) % 12
         elif op == "prevwrong":
